@@ -23,7 +23,7 @@ def plan(tier, seed):
         'rule': 'treebanks of one tree (every hierarchy over n tokens, <= u unary, x every labelling of the '
                 'constituents from {A,B}) and of two trees (every ordered pair from the pool of all labelled '
                 'shapes n <= %d), so that the same rule recurs under different parents; grammars: treebank, '
-                'leftright, optimal x {deterministic, Markov v,h in 0..3 x nofanout}. Oracle: per-label count sums '
+                'leftright, optimal x {deterministic, Markov v,h in 0..3 x nofanout}; the same grammars after a trip through their RCG files (tool writer + tool reader, then binarized) and as decoded from the LoPar file when it is written. Oracle: per-label count sums '
                 '= node counts, flow conservation for every symbol. non-trivial = distinct (treebank, mode) cases '
                 'in which some rule is observed more than once' % pool_n,
         'bound': ', '.join('n=%d:u<=%d' % s for s in specs) + '; pairs from n <= %d' % pool_n,
@@ -109,8 +109,84 @@ def check_bank(mtjs, cfg):
     return out, repeated
 
 
+def check_files(mtjs):
+    """The same balance for grammars that went through the grammar files: the RCG file re-read by the tool's
+    reader (the `grammar` command with an RCG source) and then binarized, and the LoPar file when the writer
+    does not refuse the grammar."""
+    import os
+    from . import c09
+    from ..runner import scratch
+    from trees import grammaroutput, grammarinput
+    mts = [model.MT.from_json(j) for j in mtjs]
+    case = {'files': True, 'bank': mtjs}
+    out = []
+
+    def bad(kind, where, detail, what):
+        out.append({'kind': kind, 'where': where, 'case': case,
+                    'detail': '%s [treebank %s]' % (detail, [model.mt_str(m.root, m.toks) for m in mts]), 'what': what})
+    g, lex = {}, {}
+    nodes, tags, roots = collections.Counter(), collections.Counter(), collections.Counter()
+    dest = os.path.join(scratch(), 'c08g%d' % os.getpid())
+    try:
+        for mt in mts:
+            grammar.extract(build(mt), g, lex)
+            roots[mt.root[0]] += 1
+            for nd, _ in model.mt_nodes(mt.root):
+                nodes[nd[0]] += 1
+            for tk in mt.toks:
+                tags[tk['pos']] += 1
+        grammaroutput.rcg(g, lex, dest, 'utf-8')
+        g2, lex2 = grammarinput.rcg(dest, 'utf-8')
+    except Exception as e:
+        bad('exception', 'grammarinput.rcg', '%s: %s' % (type(e).__name__, e), 'writing/re-reading the RCG files raised')
+        return out
+    lex_tags = collections.Counter()
+    for w, c in lex2.items():
+        for t, k in c.items():
+            lex_tags[t] += k
+    if lex_tags != tags:
+        bad('lexicon-counts', 'grammarinput.rcg', 'tag counts after re-reading %r, tokens per tag %r' % (dict(lex_tags), dict(tags)),
+            'lexicon counts of the re-read grammar differ from token counts')
+    for cfg in (None, {'reordering': 'none', 'markov': None}, {'reordering': 'optimal', 'markov': None},
+                {'reordering': 'none', 'markov': {'v': 1, 'h': 1, 'nofanout': False}}):
+        try:
+            G = g2 if cfg is None else run_binarize(g2, cfg)
+        except Exception as e:
+            bad('exception', 'grammar.binarize', '%s: %s (mode %r)' % (type(e).__name__, e, cfg), 'binarizing the re-read grammar raised')
+            continue
+        probs = conservation(G, lex_tags, roots, nodes)
+        if probs:
+            bad('count-conservation', 'grammarinput.rcg', '%s [mode %r]' % ('; '.join(probs[:4]), cfg),
+                'counts are not conserved in a grammar read from its RCG file')
+    true_tags = collections.Counter()
+    for w, c in lex.items():
+        for t, k in c.items():
+            true_tags[t] += k
+    for cfg in (None, {'reordering': 'none', 'markov': None}):
+        try:
+            G = g if cfg is None else run_binarize(g, cfg)
+            grammaroutput.lopar(G, lex, dest, 'utf-8')
+        except ValueError:
+            continue            # refused (not context-free): nothing is produced
+        except Exception as e:
+            bad('exception', 'grammaroutput.lopar', '%s: %s' % (type(e).__name__, e), 'LoPar writer raised')
+            continue
+        try:
+            W = c09.decode_lopar_gram(c09.read(dest + '.gram', 'utf-8'))
+        except c09.Bad as e:
+            bad('malformed-file', 'grammaroutput.lopar', str(e), 'LoPar grammar file malformed')
+            continue
+        probs = conservation({f: {l: {'': c} for l, c in ls.items()} for f, ls in W.items()}, true_tags, roots, nodes)
+        if probs:
+            bad('count-conservation', 'grammaroutput.lopar', '%s [mode %r]' % ('; '.join(probs[:4]), cfg),
+                'counts are not conserved in the written LoPar grammar')
+    return out
+
+
 def check_case(case):
     with quiet():
+        if case.get('files'):
+            return check_files(case['bank'])
         return check_bank(case['bank'], case['cfg'])[0]
 
 
@@ -127,6 +203,12 @@ def run_chunk(chunk):
             res.outcome((tuple(m.key() for m in bank), repr(cfg), len(vs)))
             for v in vs:
                 res.violation(v['kind'], v['where'], v['case'], v['detail'], v['what'])
+        vs = check_files(js)
+        res.evals += 1
+        res.nontrivial += 1 if rep else 0
+        res.outcome((tuple(m.key() for m in bank), 'files', len(vs)))
+        for v in vs:
+            res.violation(v['kind'], v['where'], v['case'], v['detail'], v['what'])
     with quiet():
         if chunk['kind'] == 'single':
             mt = None
